@@ -144,6 +144,10 @@ func cmdCheck(args []string) int {
 		if mode == "" {
 			mode = "SEQ"
 		}
+		if mode == "BOTH" {
+			reports = append(reports, eng.VerifyFunc(spec, "SEQ", kf), eng.VerifyFunc(spec, "INT", kf))
+			continue
+		}
 		reports = append(reports, eng.VerifyFunc(spec, mode, kf))
 	}
 	// contracts serving other properties may call functions whose contract serves this one: their call-site
@@ -158,7 +162,7 @@ func cmdCheck(args []string) int {
 	for _, k := range otherKeys {
 		spec := eng.specs.Funcs[k]
 		mode := spec.Mode
-		if mode == "" {
+		if mode == "" || mode == "BOTH" {
 			mode = "SEQ"
 		}
 		rep := eng.VerifyFunc(spec, mode, kf)
